@@ -145,6 +145,13 @@ Definition add_page (onTop : bool) (rot : option bytes) (wmbb : bytes) (ct : con
   | CArray (c :: rest) => CArray (patch_first onTop rot wmbb c false :: rest ++ [new_stream onTop rot wmbb])
   end.
 
+(* several AddWatermarks calls, one after the other, on the same page (unrotated) *)
+Fixpoint add_seq (adds : list (bool * bytes)) (ct : contents) : contents :=
+  match adds with
+  | [] => ct
+  | (onTop, wmbb) :: r => add_seq r (add_page onTop None wmbb ct)
+  end.
+
 Inductive page_result :=
 | PFuel                                   (* model ran out of fuel: never happens *)
 | PNoContents                             (* "page %d: no page watermark found" *)
